@@ -9,6 +9,7 @@ mod chunks;
 mod events;
 mod gen;
 mod model;
+mod mutate;
 mod monitor;
 mod observe;
 mod prng;
